@@ -23,8 +23,9 @@ Check(id, ok, detail) == IF ok THEN TRUE ELSE Viol(id, detail)
 \* aux.exp   : threads that the current critical section must still unblock (with aux.res)
 \* aux.cands : candidates of unblock_transfer_target (at most one is unblocked, with Completed)
 \* aux.waits / aux.wakes : per-thread counters
+\* aux.rel : per thread, the key and outcome of its last ClaimGuard::release
 Aux0 == [exp |-> {}, res |-> "", cands |-> {}, tt |-> FALSE, waits |-> <<>>, wakes |-> <<>>, blocked |-> 0,
-         releases |-> 0, transfers |-> 0, cycles |-> 0]
+         releases |-> 0, transfers |-> 0, cycles |-> 0, rel |-> <<>>]
 
 Cnt(f, t) == IF t \in DOMAIN f THEN f[t] ELSE 0
 Inc(f, t) == Put(f, t, Cnt(f, t) + 1)
@@ -90,7 +91,7 @@ OnHkB(Gb) ==
             /\ Check("C19", waiting => ev.a1 = 1, <<"threads wait for the key but the release skips the wake-up (anyone_waiting is false)", k, Get(Gb.qd, k, <<>>)>>)
             /\ G' = ReleaseEntry(Gb, k)
             \* (an event made under a shard lock only: it may fall between a transfer and the unblock of its target)
-            /\ aux' = [aux EXCEPT !.releases = aux.releases + 1]
+            /\ aux' = [aux EXCEPT !.releases = aux.releases + 1, !.rel = Put(aux.rel, ev.t, [k |-> k, text |-> ev.text])]
       [] nm = "sync_release_self" ->
             /\ Settled
             /\ G' = IF Has(Gb.sync, k) THEN ReleaseSelf(Gb, k) ELSE Gb
@@ -127,6 +128,10 @@ OnHkB(Gb) ==
             /\ aux' = aux
       [] nm = "dg_unblock_transferred" ->
             /\ Settled
+            \* the queries whose lock was transferred to k end with the outcome k's release ended with
+            /\ (ev.t \in DOMAIN aux.rel /\ aux.rel[ev.t].k = k) =>
+                  Check("C19", ev.text = aux.rel[ev.t].text,
+                        <<"waiters of queries transferred to a released query are handed a different outcome than the release", k, ev.text, aux.rel[ev.t].text>>)
             /\ G' = UnblockTransferredMaps(Gb, k)
             /\ aux' = aux
       [] nm = "sync_claim_transferred" ->
